@@ -72,6 +72,9 @@ func GetDiscountByVolume(pricing Pricing, volume uint64) sdk.Dec {
 	return sdk.OneDec()
 }
 
+// maxPromotionTime is the last instant a protobuf timestamp can hold
+var maxPromotionTime = time.Date(9999, 12, 31, 23, 59, 59, 999999999, time.UTC)
+
 // ValidatePricing validates the given pricing
 func ValidatePricing(pricing Pricing) error {
 	// CONTRACT:
@@ -85,6 +88,11 @@ func ValidatePricing(pricing Pricing) error {
 		// the times are stored as protobuf timestamps, which begin with year 1 (RFC 3339 admits year 0)
 		if p.StartTime.Before(time.Time{}) {
 			return sdkerrors.Wrapf(ErrInvalidPricing, "invalid timing promotion %d: time before year 1", i)
+		}
+
+		// ... and end with year 9999 (a time written with a zone offset can lie after it)
+		if p.EndTime.After(maxPromotionTime) {
+			return sdkerrors.Wrapf(ErrInvalidPricing, "invalid timing promotion %d: time after year 9999", i)
 		}
 	}
 
